@@ -1,2 +1,54 @@
-(* C22 placeholder; theorems follow *)
-From PB Require Import Json.JsonScalarModel.
+(* C22 — JSON scalar values decode exactly.
+   Statements only; each closed by [exact] of a lemma proved in Json/*P.v. *)
+From Coq Require Import List NArith ZArith.
+From PB Require Import Base.PBytes Json.JsonGrammar Json.JsonNumModel Json.JsonNumP Json.JsonIntP.
+Import ListNotations.
+Open Scope N_scope.
+
+(* The specification side (Json/JsonGrammar.v): [rfc_number raw] is the RFC 8259 number
+   grammar; [lit_is_int raw v] says that the rational value mant*10^exp10 of the literal is
+   the integer v; [int_in_range bits signed v] that v is representable.  The code side
+   (Json/JsonNumModel.v): [decode_int bits signed raw] is Token.Int / Token.Uint
+   (parseNumberParts, normalizeToIntString, strconv.ParseInt/ParseUint) on the raw bytes of
+   a Number token. *)
+
+(* soundness holds unconditionally: whatever is accepted is the exact value *)
+Theorem C22_int_decode_sound :
+  forall bits signed raw v, 1 <= bits -> rfc_number raw ->
+    decode_int bits signed raw = Some v -> lit_is_int raw v /\ int_in_range bits signed v.
+Proof. exact int_decode_sound. Qed.
+Print Assumptions C22_int_decode_sound.
+
+(* the full statement (accepted <-> integral and representable) is refuted by the code as
+   it stands: finding F6, 0.01e21 = 10^19 into uint64 *)
+Theorem C22_int_decode_exact_refuted :
+  exists bits signed raw v, rfc_number raw /\ lit_is_int raw v /\ int_in_range bits signed v /\
+                            decode_int bits signed raw = None.
+Proof. exact int_decode_exact_refuted. Qed.
+Print Assumptions C22_int_decode_exact_refuted.
+
+(* ... and holds outside the class recognised by [f6_class] (integer part 0, non-zero
+   fraction, exponent above 20; or an exponent outside int32) *)
+Theorem C22_int_decode_exact_except_F6 :
+  forall bits signed raw v, 1 <= bits <= 64 -> rfc_number raw -> f6_class raw = false ->
+    (decode_int bits signed raw = Some v <-> lit_is_int raw v /\ int_in_range bits signed v).
+Proof. exact int_decode_exact_except_F6. Qed.
+Print Assumptions C22_int_decode_exact_except_F6.
+
+(* the exclusion is tight on the rejecting side: everything in the class is rejected, so the
+   property fails exactly on the members of the class that denote a representable integer *)
+Theorem C22_int_decode_in_F6_rejected :
+  forall bits signed raw, rfc_number raw -> f6_class raw = true -> decode_int bits signed raw = None.
+Proof. exact int_decode_in_F6_rejected. Qed.
+Print Assumptions C22_int_decode_in_F6_rejected.
+
+(* non-vacuity: notations of 100 into int32, and both F6 witnesses are in the class *)
+Example C22_ex_1e2 :
+  decode_int 32 true ["1"; "e"; "2"]%byte = Some 100%Z /\
+  decode_int 32 true ["1"; "0"; "0"; "."; "0"]%byte = Some 100%Z /\
+  decode_int 32 true ["1"; "0"; "0"; "0"; "e"; "-"; "1"]%byte = Some 100%Z /\
+  decode_int 32 true ["1"; "."; "5"]%byte = None /\
+  decode_int 64 false ["0"; "."; "1"; "e"; "2"; "0"]%byte = Some 10000000000000000000%Z /\
+  f6_class f6_witness = true /\ f6_class f6_witness32 = true /\
+  f6_class ["0"; "."; "1"; "e"; "2"; "0"]%byte = false.
+Proof. vm_compute. repeat split. Qed.
